@@ -13,13 +13,15 @@
         the same depth >= 2, are pairwise distinct and are "tree ordered": labels sharing a proper
         prefix are contiguous. *)
 Require Import SF.Prelude SF.PySlice SF.IndexBij Gen.Gen_c02.
+Require Export SF.IxTreeSpec.
 
 Section Tree.
   Variable C : Type.
   Variable ceqb : C -> C -> bool.
 
-  Definition label := list C.
-  Definition leqb (a b : label) : bool := list_eqb ceqb a b.
+  Notation label := (label C).
+  Notation hobs := (hobs C).
+  Notation depth_ok := (@depth_ok C).
 
   (* ------------------------------------------------------------------ the dict tree *)
   Inductive tree :=
@@ -76,8 +78,6 @@ Section Tree.
             end
         end
     end.
-
-  Definition depth_ok (depth : nat) (lab : label) : bool := Nat.eqb (length lab) depth.
 
   (* the loop over labels: length check first, then the walk; observed_last follows the label *)
   Fixpoint ins_all (depth : nat) (labs : list label) (last : list (option C)) (t : tree) : res tree :=
@@ -207,76 +207,6 @@ Section Tree.
     end.
   Definition M_h_contains (lv : level) (key : label) : bool := lv_contains key lv.
 
-  (* ------------------------------------------------------------------ specification *)
-  Definition lmemb (x : label) (l : list label) : bool := memb leqb x l.
-  Definition lnodupb (l : list label) : bool := nodupb leqb l.
-  Definition lindex_of (x : label) (l : list label) : option Z := index_of leqb x l.
-
-  Fixpoint lastopt {A} (l : list A) : option A :=
-    match l with
-    | [] => None
-    | x :: l' => match l' with [] => Some x | _ => lastopt l' end
-    end.
-
-  (* tree order: whenever a label shares a proper prefix (length p, 1 <= p < depth) with an EARLIER
-     label, it shares it with the label just before it *)
-  Definition share (p : nat) (a b : label) : bool := leqb (firstn p a) (firstn p b).
-
-  Definition okb (depth : nat) (seen : list label) (x : label) : bool :=
-    forallb (fun p => negb (existsb (share p x) seen) ||
-                      match lastopt seen with Some q => share p x q | None => false end)
-            (seq 1 (depth - 1)).
-
-  Fixpoint tree_ordered_from (depth : nat) (seen : list label) (labs : list label) : bool :=
-    match labs with
-    | [] => true
-    | x :: xs => okb depth seen x && tree_ordered_from depth (seen ++ [x]) xs
-    end.
-
-  Definition tree_ordered (depth : nat) (labs : list label) : bool := tree_ordered_from depth [] labs.
-
-  Definition S_h_accepts (labs : list label) : bool :=
-    match labs with
-    | [] => false
-    | first :: _ =>
-        let depth := length first in
-        negb (depth <? 2)%nat && forallb (depth_ok depth) labs && tree_ordered depth labs && lnodupb labs
-    end.
-
-  Definition S_h_lookup (labs : list label) (key : label) : res Z :=
-    match lindex_of key labs with Some i => Ok i | None => Err "KeyError" end.
-
-  Definition S_h_contains (labs : list label) (key : label) : bool := lmemb key labs.
-
-  (* observation of a hierarchical index *)
-  Record hobs := mk_hobs {
-    h_values : list label;       (* index.values rows *)
-    h_iter : list label;         (* list(index) *)
-    h_rev : list label;          (* list(reversed(index)) *)
-    h_len : Z;
-    h_pos : list Z;
-    h_at : list label;           (* index.iloc[i] *)
-    h_lookup : list (res Z);     (* loc_to_iloc(tuple) per probe *)
-    h_contains : list bool
-  }.
-
-  Definition S_h_observe (labs : list label) (probes : list label) : hobs :=
-    mk_hobs labs labs (rev labs) (zlen labs) (iota (length labs)) labs
-            (map (S_h_lookup labs) probes) (map (S_h_contains labs) probes).
-
-  Definition S_from_labels (labs : list label) (probes : list label) : res hobs :=
-    if S_h_accepts labs then Ok (S_h_observe labs probes) else Err "ErrorInitIndex".
-
-  (* grow-only hierarchical index (specification): a label is accepted iff the table stays an index *)
-  Fixpoint S_hgo_run (labs : list label) (ops : list label) : list label * list bool :=
-    match ops with
-    | [] => (labs, [])
-    | x :: ops' =>
-        if S_h_accepts (labs ++ [x])
-        then let '(l, r) := S_hgo_run (labs ++ [x]) ops' in (l, true :: r)
-        else let '(l, r) := S_hgo_run labs ops' in (l, false :: r)
-    end.
-
   Definition M_h_observe (lv : level) (probes : list label) : hobs :=
     let labs := flatten lv in
     mk_hobs labs labs (rev labs) (lv_len lv) (iota (Z.to_nat (lv_len lv))) labs
@@ -290,12 +220,12 @@ Section Tree.
 End Tree.
 
 Arguments TLeaf {C}. Arguments TNode {C}. Arguments LLeaf {C}. Arguments LNode {C}.
-Arguments mk_hobs {C}. Arguments h_values {C}. Arguments h_iter {C}. Arguments h_rev {C}. Arguments h_len {C}.
-Arguments h_pos {C}. Arguments h_at {C}. Arguments h_lookup {C}. Arguments h_contains {C}.
+    
+   
 Arguments find_child {C}. Arguments set_child {C}. Arguments fresh {C}. Arguments last_is {C}. Arguments ins {C}.
-Arguments ins_all {C}. Arguments depth_ok {C}. Arguments lv_offset {C}. Arguments lv_len {C}. Arguments build {C}. Arguments build_list {C}. Arguments flatten_list {C}.
+Arguments ins_all {C}.  Arguments lv_offset {C}. Arguments lv_len {C}. Arguments build {C}. Arguments build_list {C}. Arguments flatten_list {C}.
 Arguments M_from_labels {C}. Arguments flatten {C}. Arguments leaf_loc {C}. Arguments M_leaf_loc_to_iloc {C}.
-Arguments M_h_contains {C}. Arguments lv_contains {C}. Arguments leqb {C}. Arguments lmemb {C}. Arguments lnodupb {C}. Arguments lindex_of {C}.
-Arguments share {C}. Arguments okb {C}. Arguments lastopt {A}. Arguments tree_ordered_from {C}. Arguments tree_ordered {C}. Arguments S_h_accepts {C}.
-Arguments S_h_lookup {C}. Arguments S_h_contains {C}. Arguments S_h_observe {C}. Arguments S_from_labels {C}. Arguments S_hgo_run {C}.
+Arguments M_h_contains {C}. Arguments lv_contains {C}.    
+     
+    
 Arguments M_h_observe {C}. Arguments M_from_labels_obs {C}.
